@@ -36,10 +36,14 @@ type zzSeq struct {
 	dC, dU, dR time.Duration
 	rC, rU     time.Duration
 	// tallies for C20
-	lookups, hitsWant, loads uint64
+	lookups, hitsWant, loads, loadOK uint64
 	// C07: at the moment of every automatic removal the handler checks the justification
 	hadOverflow bool
 	maximum     uint64
+	lastW       uint32
+	nOverflow, wOverflow     uint64 // Overflow events and their weights
+	nExpired, wExpired       uint64 // Expiration events (any path) and their weights
+	prevStats                [6]uint64
 	tag         string
 }
 
@@ -133,7 +137,7 @@ func (s *zzSeq) modelRemove(k int) {
 // physically drop it (reported as Expiration) — sanctioned, invisible in the abstract map.
 func (s *zzSeq) modelMayDropExpired(k int) {
 	if s.m[k].exists && !s.present(k) {
-		s.optional = append(s.optional, zzEvent{key: k, val: s.m[k].val, cause: CauseExpiration})
+		s.optional = append(s.optional, zzEvent{key: k, val: s.m[k].val, cause: CauseExpiration, w: s.m[k].w})
 	}
 }
 
@@ -161,6 +165,7 @@ func (s *zzSeq) syncEvents(tag string) {
 		for i := range s.expect {
 			if s.expect[i].key == e.key && s.expect[i].val == e.val {
 				w := uint64(s.expect[i].w)
+				s.lastW = s.expect[i].w
 				if (s.expect[i].cause == CauseInvalidation || s.expect[i].cause == CauseExpiration) && e.cause == CauseOverflow && s.env.cfg.bound != 0 &&
 					(s.modelTotal()+w > s.maximum || w > s.maximum) {
 					// maintenance running inside the operation evicted the entry before the explicit removal
@@ -177,6 +182,7 @@ func (s *zzSeq) syncEvents(tag string) {
 		}
 		if matched {
 			s.reported = append(s.reported, e)
+			s.tallyEvent(e, s.lastW)
 			continue
 		}
 		// automatic removal
@@ -194,10 +200,44 @@ func (s *zzSeq) syncEvents(tag string) {
 			s.hadOverflow = true
 		}
 		s.reported = append(s.reported, e)
+		s.tallyEvent(e, me.w)
 		*me = zzME{}
 	}
 	vAssert(len(s.expect) == 0, tag+".event.missing")
 	s.expect = s.expect[:0]
+}
+
+func (s *zzSeq) tallyEvent(e zzEvent, w uint32) {
+	switch e.cause {
+	case CauseOverflow:
+		s.nOverflow++
+		s.wOverflow += uint64(w)
+	case CauseExpiration:
+		s.nExpired++
+		s.wExpired += uint64(w)
+	}
+}
+
+// checkStats compares the attached stats.Counter with the model's tallies (C20).
+func (s *zzSeq) checkStats(tag string) {
+	if s.env.ctr == nil {
+		return
+	}
+	st := s.env.ctr.Snapshot()
+	vAssert(st.Hits == s.hitsWant, tag+".stats.hits")
+	vAssert(st.Hits+st.Misses == s.lookups, tag+".stats.hits_plus_misses_equals_lookups")
+	vAssert(st.LoadSuccesses+st.LoadFailures == s.loads, tag+".stats.loads_equal_loader_invocations")
+	vAssert(st.LoadSuccesses == s.loadOK, tag+".stats.load_successes")
+	vAssert(st.Evictions >= s.nOverflow && st.Evictions <= s.nOverflow+s.nExpired, tag+".stats.evictions")
+	vAssert(st.EvictionWeight >= s.wOverflow && st.EvictionWeight <= s.wOverflow+s.wExpired, tag+".stats.eviction_weight")
+	if !s.withExp() {
+		vAssert(st.Evictions == s.nOverflow && st.EvictionWeight == s.wOverflow, tag+".stats.evictions_exactly_overflow")
+	}
+	cur := [6]uint64{st.Hits, st.Misses, st.Evictions, st.EvictionWeight, st.LoadSuccesses, st.LoadFailures}
+	for i := range cur {
+		vAssert(cur[i] >= s.prevStats[i], tag+".stats.never_decrease")
+	}
+	s.prevStats = cur
 }
 
 // modelTotal is the total weight of the entries physically in the cache (count when unweighted).
@@ -317,6 +357,7 @@ const (
 	zzOpGetLoadNotFound
 	zzOpIterate
 	zzOpCleanUp
+	zzOpSetMaximum
 	zzOpN
 )
 
@@ -532,6 +573,9 @@ func (s *zzSeq) step(op, k int, tag string) {
 			s.modelReadHook(k)
 		} else {
 			s.loads++
+			if op != zzOpGetLoadErr {
+				s.loadOK++ // not-found counts as a successful load
+			}
 			if op == zzOpGetLoadOK {
 				s.modelWrite(k, v)
 			} else {
@@ -568,10 +612,19 @@ func (s *zzSeq) step(op, k int, tag string) {
 		s.iterate(tag)
 	case zzOpCleanUp:
 		c.CleanUp()
+	case zzOpSetMaximum:
+		if s.env.cfg.bound != 0 {
+			ms := []uint64{0, 1, 2, uint64(s.env.cfg.max)}
+			m := ms[vChoice("newmax", len(ms))]
+			s.maximum = m
+			c.SetMaximum(m)
+			vAssert(c.GetMaximum() == m, tag+".setmaximum.reported")
+		}
 	}
 	// optional events (physical drop of expired entries) become expectations only if they were delivered
 	s.absorbOptional()
 	s.syncEvents(tag)
+	s.checkStats(tag)
 }
 
 // absorbOptional: an allowed physical drop of an expired entry becomes an expectation iff it was delivered.
@@ -592,7 +645,7 @@ func (s *zzSeq) absorbOptional() {
 var zzOpNames = []string{"Set", "SetIfAbsent", "GetIfPresent", "GetEntry", "GetEntryQuietly", "ComputeWrite", "ComputeInvalidate",
 	"ComputeCancel", "ComputePanic", "ComputeIfAbsentWrite", "ComputeIfAbsentCancel", "ComputeIfPresentWrite",
 	"ComputeIfPresentInvalidate", "ComputeIfPresentCancel", "Invalidate", "InvalidateAll", "SetExpiresAfter",
-	"SetRefreshableAfter", "GetLoadOK", "GetLoadErr", "GetLoadNotFound", "Iterate", "CleanUp"}
+	"SetRefreshableAfter", "GetLoadOK", "GetLoadErr", "GetLoadNotFound", "Iterate", "CleanUp", "SetMaximum"}
 
 func zzNewSeq(cfg zzCfg, tag string) *zzSeq { return zzNewSeqD(cfg, tag, false) }
 
